@@ -35,9 +35,13 @@ func runC14(c *Ctx) {
 		"elem|append":              "append to a slice that is not table state (result of a standard-library call)",
 	}
 	nfn := 0
-	for _, rel := range []string{"csv", "html", "json", "markdown", "texttable"} {
+	for _, rel := range []string{"csv", "html", "json", "markdown", "texttable", "auto"} {
 		for _, fn := range c.ModFuncs(rel) {
-			if (fn.Name() != "RenderTo" && fn.Name() != "Render") || fn.Signature.Recv() == nil {
+			isEntry := (fn.Name() == "RenderTo" || fn.Name() == "Render") && fn.Parent() == nil && fn.Synthetic == ""
+			if rel == "auto" && (fn.Name() == "Wrap" || fn.Name() == "New") && fn.Parent() == nil {
+				isEntry = true // choosing the renderer by name is part of "rendering in any order of formats and decorations"
+			}
+			if !isEntry {
 				continue
 			}
 			nfn++
@@ -50,6 +54,17 @@ func runC14(c *Ctx) {
 					continue
 				}
 				k := ef.Path + "|" + ef.What
+				if fn.Signature.Recv() == nil {
+					// a package-level entry point wraps first: what it does to the wrapper (or to a table) it has just
+					// made is not a change to anything the caller had; and wrapping registers the renderer's measuring
+					// callback on the table, which is what wrapping is documented to do
+					if strings.HasPrefix(fmt.Sprint(ef.Org), "heap") {
+						continue
+					}
+					if ef.Fn != nil && ef.Fn.Name() == "RegisterPropertyCallback" {
+						continue
+					}
+				}
 				if seen[k] {
 					continue
 				}
